@@ -2,6 +2,7 @@ import Dashu.Props.C14Link
 import Dashu.Props.C14EstNoStd
 import Dashu.Props.C14I128
 import Dashu.Props.C14Shl
+import Dashu.Props.C14Mul
 /- one audit module for the C14 extension modules (one Lean process: import cost paid once) -/
 #print axioms Dashu.Props.C14Link.ubig_ord_mirrored
 #print axioms Dashu.Props.C14Link.ibig_ord_mirrored
@@ -42,3 +43,10 @@ import Dashu.Props.C14Shl
 #print axioms Dashu.Props.C14Shl.shl_digits_pow2_mirrored
 #print axioms Dashu.Props.C14Shl.exact_step_shl_cmp_mirrored
 #print axioms Dashu.Props.C14Shl.exact_step_shl_abs_cmp_mirrored
+#print axioms Dashu.Props.C14Mul.ubig_operand_positive
+#print axioms Dashu.Props.C14Mul.mul_mirrored
+#print axioms Dashu.Props.C14Mul.ratio_cross_cmp_mirrored
+#print axioms Dashu.Props.C14Mul.ratio_cross_eq_mirrored
+#print axioms Dashu.Props.C14Mul.ratio_int_cmp_mirrored
+#print axioms Dashu.Props.C14Mul.mul_shl_mirrored
+#print axioms Dashu.Props.C14Mul.ratio_float_step_mirrored
